@@ -34,7 +34,7 @@ type partCfg struct {
 
 type partOp struct {
 	Op  string `json:"op"`
-	Key string `json:"key,omitempty"`
+	Key string `json:"key"`
 	Bin string `json:"bin,omitempty"`
 	Obj string `json:"obj,omitempty"`
 	V   int    `json:"v"`
